@@ -246,7 +246,7 @@ def process(ctx, case, seen):
 def shard(ctx):
     rec = ctx.rec
     monitors.install_contracts()
-    n = ctx.scale(400, 10000)
+    n = ctx.scale(800, 10000)
     seen = {}
     i = 0
     while i < n and not rec.expired():
